@@ -210,6 +210,13 @@ class Checker:
             self._baseline['proved'] = set(self._baseline.get('proved', []))
         return self._baseline
 
+    def hints_detached(self, func):
+        """stepping stones of the contract that found no statement to attach to in the CURRENT text of the function"""
+        for f in self.functions:
+            if f.get('function') == func and f.get('hints_not_attached'):
+                return f['hints_not_attached']
+        return []
+
     def function_changed(self, func):
         """True when the text of the function differs from the text the committed baseline proof was made on"""
         base = self.baseline()['functions'].get(func)
@@ -373,6 +380,12 @@ class Checker:
                 continue
             obs = groups[name]
             sts = [self.results[o.uid]['status'] for o in obs]
+            if self.function_changed(obs[0].func) and self.hints_detached(obs[0].func):
+                # the function was rewritten so that the proof's stepping stones no longer attach: the proof script does not fit this
+                # text any more; without a failing input this is not evidence against the property: the bounded stand-in decides
+                if not any(f_.get('function') == obs[0].func for f_ in self.fallbacks):
+                    self.fallbacks.append({'function': obs[0].func, 'reason': 'changed function: stepping stones %s no longer attach; obligations not discharged: bounded stand-in decides' % self.hints_detached(obs[0].func)[:3]})
+                continue
             if all(s in ('proved', 'unknown') for s in sts):
                 if not (name in self.baseline()['proved'] and self.function_changed(obs[0].func)):
                     self.undecided.append(name)
